@@ -44,6 +44,42 @@ def f19_deciders(rec):
     return out
 
 
+def nested_merges(rec):
+    """wire merges one of whose sources is itself a wire merge (finding F24)"""
+    merges = {op["id"]: op for op in rec.get("ir_final", []) if op.get("kind") == "IRWireMerge"}
+    out = {}
+    for mid, op in merges.items():
+        inner = [s["src"] for s in op.get("sources", []) if isinstance(s, dict) and s.get("src") in merges]
+        if inner:
+            out[mid] = inner
+    return out
+
+
+def merge_leaf_sources(rec, mid, seen=None):
+    merges = {op["id"]: op for op in rec.get("ir_final", []) if op.get("kind") == "IRWireMerge"}
+    seen = seen or set()
+    res = set()
+    for s in merges.get(mid, {}).get("sources", []):
+        if isinstance(s, dict) and "src" in s:
+            if s["src"] in merges and s["src"] not in seen:
+                seen.add(s["src"])
+                res |= merge_leaf_sources(rec, s["src"], seen)
+            else:
+                res.add(s["src"])
+    return res
+
+
+def classify_history(rec, verdict, hm):
+    """History (stateful) mismatches: F22 = reset-priority latch that is on, set and reset both active."""
+    for c in hm.get("cells", []):
+        if c["kind"] == "rs_latch" and c["enable_or_set"] != 0 and c["reset"] != 0:
+            exp = hm.get("expected", {})
+            got = hm.get("got", {})
+            if got and (not exp or all(v == 0 for v in exp.values())):
+                return ("F22", "reset-priority latch is on while set and reset are both active (signal form: set + feedback > reset; inlined form: set OR (on AND NOT reset))")
+    return None
+
+
 def classify_mismatch(rec, verdict, mm):
     """Return (finding_id, what) when the mismatch has the signature of a listed finding, else None."""
     name = mm["name"]
@@ -64,9 +100,45 @@ def classify_mismatch(rec, verdict, mm):
         if hits:
             i = hits[0]
             return ("F02", f"fan-out merge: {i['producer']} is visible to {i['sink']} on {i['sig']} although no planned edge joins them")
+    pol = [p for p in wire.get("pollution", []) if p["sink"] in cone]
+    if pol:
+        p = pol[0]
+        return ("F23", f"wildcard operand of {p['sink']} also sees {p['producer']}, which is planned for one of its scalar operands")
+    uns = [u for u in wire.get("unselected", []) if u[1] in cone]
+    if uns:
+        return ("F18", f"{uns[0][0]} reaches {uns[0][1]} only on a colour that the consuming operand does not select")
     bad = f19_deciders(rec) & cone
     if bad:
         return ("F19", f"multi-condition decider {sorted(bad)[0]} reads one signal type from two sources without network selection")
+    # F23: `(signal CMP c) : bundle` copies the condition signal into the result when it is not a member
+    exp, got = mm.get("expected", {}), mm.get("got", {})
+    extra = set(got) - set(exp)
+    if extra:
+        for op in rec.get("ir_final", []):
+            if op.get("kind") == "IRDecider" and op["id"].startswith("bundle_gate") and op["id"] in cone:
+                left = op.get("left")
+                if isinstance(left, dict) and "sig" in left:
+                    fname = rec.get("signal_type_map", {}).get(left["sig"], left["sig"])
+                    fname = fname.get("name") if isinstance(fname, dict) else fname
+                    same = all(got.get(k) == exp.get(k) for k in exp)
+                    if extra == {fname} and same:
+                        return ("F23", f"bundle gate {op['id']} copies its condition signal {fname} into the gated bundle")
+    # F24: members of a merge nested inside another merge are never wired
+    nm = nested_merges(rec)
+    if nm:
+        missing = set(exp) - set(got)
+        consumers = [op for op in rec.get("ir_final", []) if op["id"] in cone or op["id"] == src]
+        refs = set()
+        for op in rec.get("ir_final", []):
+            if op["id"] in cone or op["id"] == src or (src and op["id"].startswith("wire_merge") and op["id"] == src):
+                for k in ("left", "right", "output_value"):
+                    o = op.get(k)
+                    if isinstance(o, dict) and o.get("src") in nm:
+                        refs.add(o["src"])
+        if src in nm:
+            refs.add(src)
+        if refs and (missing or extra is not None):
+            return ("F24", f"wire merge {sorted(refs)[0]} contains another merge whose members are not wired to the consumer")
     return None
 
 
@@ -106,6 +178,38 @@ def run_semantic(res, sources, opts=None, count=30, extra_case=None, label="prog
         if v.get("unsupported"):
             stats["entity_unsupported"] += 1
         mms = v.get("mismatches", [])
+        hist = v.get("history") or {}
+        hms = hist.get("mismatches", [])
+        its = hist.get("iterate", [])
+        stats["history_steps"] += hist.get("steps", 0)
+        bad_it = [x for x in its if x.get("latency") is None]
+        for x in its:
+            if x.get("latency") is not None:
+                stats[f"latency={x['latency']}"] += 1
+        if hms or bad_it:
+            unexplained = []
+            for hm in hms:
+                cl = classify_history(c, v, hm) or classify_mismatch(c, v, hm)
+                if cl:
+                    res.known(cl[0], cl[1], example={"source": c["source"], "mismatch": hm})
+                    stats["finding:" + cl[0]] += 1
+                else:
+                    unexplained.append(hm)
+            for x in bad_it:
+                cl = classify_mismatch(c, v, {"name": x["name"], "expected": {}, "got": {}})
+                if cl:
+                    res.known(cl[0], cl[1], example={"source": c["source"], "iterate": x})
+                    stats["finding:" + cl[0]] += 1
+                else:
+                    unexplained.append({"iterate": x, "reason": "no latency L with value(t+L) = f(value(t))"})
+            if unexplained:
+                res.violation({"reason": "stateful behaviour differs from the source semantics", "source": c["source"],
+                               "options": c.get("options"), "mismatch": unexplained[0], "wire": v.get("wire")})
+                info["status"] = "violation"
+                stats["violation"] += 1
+            else:
+                info["status"] = "known"
+            continue
         if not mms:
             wire = v.get("wire", {})
             if wire.get("intrusions") or wire.get("missing") or wire.get("unjustified"):
